@@ -416,6 +416,21 @@ func checkEntity(c *Case) (string, string) {
 	if err != nil || !bytes.Equal(b, b2) {
 		return "entity/stable", fmt.Sprintf("second encoding differs: %s then %s", b, b2)
 	}
+	// the receiver is reused for another document (the usual loop over a stream of documents): the copy kept from the
+	// first decode still is what the first document said, and the receiver is what the second one says
+	kept := y
+	other := ir.Entity{UID: ir.Ent("Other", "o"), Parents: []ir.Value{ir.Ent("Other", "p1"), ir.Ent("Zz", "p2")}, Attrs: []ir.Field{ir.F("only", ir.Long(1))}, Tags: []ir.Field{ir.F("t", ir.Str("v"))}}
+	if ob, err := json.Marshal(conv.ToEntity(other)); err == nil {
+		if err := json.Unmarshal(ob, &y); err != nil {
+			return "entity/reuse-receiver", fmt.Sprintf("decoding %s into a used receiver fails: %v", ob, err)
+		}
+		if ok, why := sameEntity(y, other); !ok {
+			return "entity/reuse-receiver", fmt.Sprintf("decoding %s into a receiver that held %s gives a different entity: %s", ob, b, why)
+		}
+		if ok, why := sameEntity(kept, *c.E); !ok {
+			return "entity/reuse-receiver", fmt.Sprintf("the copy kept from decoding %s changed when its source variable was decoded into again: %s", b, why)
+		}
+	}
 	for _, imp := range []bool{false, true} {
 		e := &emitter{seq: c.Seq, uidImplicit: imp}
 		doc := e.entity(*c.E, c.Omit, c.Dup, e.value)
